@@ -49,9 +49,11 @@ type C13Plan struct {
 	RChunks []int `json:"rchunks,omitempty"`
 	WChunks []int `json:"wchunks,omitempty"`
 	// Slots: "" (stub served agent) or "real" (the concrete server with a stub PIV tool)
-	Slots     string   `json:"slots,omitempty"`
-	Remote    bool     `json:"remote,omitempty"`
-	PivOutput string   `json:"piv_output,omitempty"`
+	Slots     string `json:"slots,omitempty"`
+	Remote    bool   `json:"remote,omitempty"`
+	PivOutput string `json:"piv_output,omitempty"`
+	// PivStderr: what the tool writes to its standard error stream (diagnostics, possibly looking like status lines)
+	PivStderr string   `json:"piv_stderr,omitempty"`
 	PivExit   int      `json:"piv_exit,omitempty"`
 	BigCert   bool     `json:"big_cert,omitempty"`   // the served slot certificate is a large RSA-4096 one
 	StubSlots []string `json:"stub_slots,omitempty"` // slots the stub served agent reports (nil: 9a, 9c)
@@ -112,6 +114,9 @@ func genC13(r *sim.Rng, tier string) any {
 		p.Slots = "real"
 		p.Remote = r.Bool(0.25)
 		p.PivOutput, p.PivExit = genPivOutput(r)
+		if r.Bool(0.3) {
+			p.PivStderr = pick(r, []string{"Slot 9d:\tdiagnostic line on stderr\n", "warning: reader busy\n", "Slot 82 is empty\nSlot 9e: not read\n", "Slotted\n"})
+		}
 	}
 	p.BigCert = r.Bool(0.3)
 	p.PEMNoise = r.Bool(0.3)
@@ -317,13 +322,15 @@ func sessionC13(t *testing.T, raw json.RawMessage) *sim.Outcome {
 			os.WriteFile(exitFile, []byte(fmt.Sprint(exit)), 0o644)
 		}
 		setPiv(p.PivOutput, p.PivExit)
+		errFile := filepath.Join(dir, "status.err")
+		os.WriteFile(errFile, []byte(p.PivStderr), 0o644)
 		pemBytes := pem.EncodeToMemory(&pem.Block{Type: "CERTIFICATE", Bytes: testCertDER()})
 		if p.PEMNoise {
 			pemBytes = append(append([]byte("Certificate for the slot:\n\n"), pemBytes...), []byte("\n\n  \n")...)
 		}
 		os.WriteFile(certFile, pemBytes, 0o644)
-		script := fmt.Sprintf("#!/bin/sh\necho \"$@\" >> %s\ncase \"$2\" in\n status) cat %s; exit $(cat %s);;\n read-certificate|attest) if [ \"$4\" = \"9a\" ] || [ \"$4\" = \"9c\" ]; then cat %s; exit 0; else echo 'no such slot' >&2; exit 1; fi;;\nesac\nexit 2\n",
-			pivLog, outFile, exitFile, certFile)
+		script := fmt.Sprintf("#!/bin/sh\necho \"$@\" >> %s\ncase \"$2\" in\n status) cat %s >&2; cat %s; exit $(cat %s);;\n read-certificate|attest) if [ \"$4\" = \"9a\" ] || [ \"$4\" = \"9c\" ]; then cat %s; exit 0; else echo 'no such slot' >&2; exit 1; fi;;\nesac\nexit 2\n",
+			pivLog, errFile, outFile, exitFile, certFile)
 		if err := os.WriteFile(tool, []byte(script), 0o755); err != nil {
 			o.Fail("harness.tmp", "tool", 0, "%v", err)
 			return o
